@@ -315,7 +315,7 @@ func runC04(c *core.Ctx) {
 	checkKeyScheme(c, "R4.7")
 	c.Rule("R4.8", "every counted chunk reply was read without error and token-compared in its iteration, or no hit follows (shared with C05)", 3)
 	c.Rule("R4.9", "once a chunk's token differs from the metadata token no hit is reachable (shared with C05)", 3)
-	c.Share(map[string]string{"R5.4": "R4.8", "R5.2": "R4.9", "R5.5": "R4.14", "R5.1": "R4.16"}, runC05)
+	c.Share(map[string]string{"R5.4": "R4.8", "R5.2": "R4.9", "R5.5": "R4.14", "R5.1": "R4.16", "R5.7": "R4.18"}, runC05)
 	c.Rule("R4.10", "a value handed to the consumer of a multi-key get lives in memory obtained during that key's iteration: it is not overwritten when the next key is read", 1)
 	checkFreshValueBuffers(c, "R4.10", relChunked)
 	c.Rule("R4.11", "append/prepend store the assembled value under the flags recorded in the metadata they read and under the command's own key", 1)
